@@ -390,7 +390,15 @@ func (w *wWorld) buildOps(nDIDs, nOps, nClients int) {
 				spec.SignKey = d.upd
 				spec.NextUpdate = kg.New(workload.Ed25519, false)
 				d.upd = spec.NextUpdate
-				spec.Patches, _ = workload.ToPatches([]workload.PatchDesc{{Kind: workload.AddSvc, IDs: []string{"s1"}, Mark: fmt.Sprintf("m%d", mark)}})
+				pds := []workload.PatchDesc{{Kind: workload.AddSvc, IDs: []string{"s1"}, Mark: fmt.Sprintf("m%d", mark)}}
+
+				// several patches of different kinds in one delta, among them URIs that a URL library would re-spell
+				if mark%3 == 0 {
+					pds = append(pds, workload.PatchDesc{Kind: workload.AddAKA, IDs: []string{"https://a.example/\u00fc?x=1&y=<2>", "HTTPS://A.example/Case#"}},
+						workload.PatchDesc{Kind: workload.RemoveKey, IDs: []string{"k9"}})
+				}
+
+				spec.Patches, _ = workload.ToPatches(pds)
 			case t < 8:
 				spec.Type = operation.TypeRecover
 				spec.SignKey = d.rec
